@@ -456,6 +456,9 @@ def parseLine (p : Parsed) (line : String) : Parsed :=
     | some h, some cc, some cn => { p with ops := .switch h cc cn :: p.ops }
     | _, _, _ => { p with bad := true }
   | ["op", "start"] => { p with ops := .start [] :: p.ops }
+  -- how the implementation side represents a reading (float r/8, int r, Fraction r/7): the model
+  -- computes in reading units over all of Int whatever the representation
+  | ["clock", k] => if k = "f8" || k = "int" || k = "frac" then p else { p with bad := true }
   | "frame" :: r :: rest =>
     match r.toInt?, parseActs rest, p.ops with
     | some r, some acts, .start fs :: ops =>
